@@ -2,10 +2,11 @@ SPECIFICATION Spec
 CONSTANTS
   Ids = {"i1", "i2"}
   Tos = {"none", "full"}
-  RFroms = {"exact", "absent", "stranger", "bareOf"}
+  RFroms = {"exact", "absent", "stranger"}
   Types = {"result", "error"}
   OpenKinds = {"plain", "sm", "smr", "resumed"}
   Cids = {"fresh", "empty", "dup"}
+  Attempts = {}
   IdRule = "replace"
   MaxHist = 99
 VIEW GenViewNoCid
